@@ -7,11 +7,15 @@ wt = f"/tmp/seed/{pid}" if n == "1" else f"/tmp/seed/{pid}-{n}"
 prev = ""
 if n != "1":
     import os
-    mp = f"/verif/seeded/{pid}/meta.json"
-    if os.path.exists(mp):
-        m = json.load(open(mp))
-        prev = (f"\nROUND2 NOTE: an earlier attempt already used this change - do NOT repeat it or a close variant, pick a different "
-                f"site and a different mechanism: {m['change']} (it needed: {m['needs']}).\n")
+    earlier = []
+    for suffix in [""] + [f"-{k}" for k in range(2, int(n))]:
+        mp = f"/verif/seeded/{pid}{suffix}/meta.json"
+        if os.path.exists(mp):
+            m = json.load(open(mp))
+            earlier.append(f"  - {m['change']} (it needed: {m['needs']})")
+    if earlier:
+        prev = ("\nNOTE: earlier attempts already used the following changes - do NOT repeat any of them or a close variant, pick a "
+                "different site and a different mechanism:\n" + "\n".join(earlier) + "\n")
 print(f"""You are testing how well a software project's safety net catches subtle regressions. The project is the Python library XKNX/xknx (asynchronous KNX/IP library). You have your own scratch git worktree of it at {wt} (work ONLY there; do not look at or touch /repo, /verif or any other directory outside {wt}; run python as /venv/bin/python with PYTHONPATH={wt} so that your worktree's code is imported — check with `PYTHONPATH={wt} /venv/bin/python -c "import xknx; print(xknx.__file__)"`).
 
 Here is a semantic property the library is supposed to satisfy:
